@@ -10,7 +10,7 @@
    [C28_components_linearizable] instantiates the premise of part 1 with it. *)
 From Coq Require Import String List NArith Bool.
 From LV Require Import model.LockDiscipline model.Lin proofs.LinSim proofs.LinHW proofs.LinHB proofs.Lin proofs.LinTable
-  model.Wlru model.Semaphore model.LinObjects model.CrashBase model.LinMulti proofs.LinMulti proofs.LinInstances proofs.LinBuffer gen.LockTable.
+  model.Wlru model.Semaphore model.LinObjects model.CrashBase model.LinMulti proofs.LinMulti proofs.LinInstances proofs.LinBuffer proofs.LinRefute proofs.LinFlushMS gen.LockTable.
 Import ListNotations.
 Local Open Scope string_scope.
 
@@ -193,6 +193,56 @@ Theorem C28_buffer_mutators_linearizable :
          (hist bop (option Buffer.out) tr).
 Proof. exact (fun fc fp limN limS => buffer_mutators_linearizable fc fp limN limS checked_table C28_buffer_table_check). Qed.
 
+(* ---- a genuinely multi-step instance (proofs/LinFlushMS.v): Flushable with FIELD-LEVEL bodies (Put = tree insert,
+   then size-estimate update; batch; Flush = write parent, clear overlay, reset estimate) — here the mutex is what
+   makes the histories linearizable — and the number of critical sections of every method's row is a hypothesis:
+   a row with two sections is modelled as unlock/lock after the first access ([ms_waits]). *)
+Theorem C28_flushable_multistep_table_check : ms_check checked_table = true.
+Proof. vm_compute. reflexivity. Qed.
+
+Theorem C28_flushable_multistep_linearizable :
+  forall (s0 : fstate) tr c,
+    exec fstate fop fres mloc ms_linit ms_mstep ms_fin (ms_waits (row_sections checked_table)) ms_wstep
+         (tk_kind fop fkey checked_table) s0 tr c ->
+    linearizable fstate fop fres mloc ms_linit ms_mstep ms_fin (ms_waits (row_sections checked_table)) ms_wstep s0
+         (hist fop fres tr).
+Proof. exact (flushable_multistep_linearizable checked_table C28_flushable_multistep_table_check). Qed.
+
+(* its sequential specification (the field-level steps run alone) is the step of C22's model *)
+Theorem C28_flushable_multistep_sequential_spec :
+  forall sections o s s' r,
+    seq_exec fstate fop fres mloc ms_linit ms_mstep ms_fin (ms_waits sections) ms_wstep o s s' r ->
+    fl_step s o = (s', r).
+Proof. exact ms_seq_exec_step. Qed.
+
+(* ---- concrete NON-linearizable histories (proofs/LinRefute.v, LinFlushMS.v) ---- *)
+(* the "one critical section" hypothesis is necessary: same object, a table reporting two sections for the batch
+   write: NotFlushedPairs = 1 between the two inserts of one batch (0 before it, 2 after it) *)
+Theorem C28_split_section_not_linearizable :
+  (exists c, exec fstate fop fres mloc ms_linit ms_mstep ms_fin (ms_waits sb_sections) ms_wstep sb_kind f_init
+               split_batch_trace c) /\
+  ~ linearizable fstate fop fres mloc ms_linit ms_mstep ms_fin (ms_waits sb_sections) ms_wstep f_init
+      (hist fop fres split_batch_trace).
+Proof. split; [exact split_batch_trace_exec | exact split_batch_not_linearizable]. Qed.
+
+(* the EventsBuffer finding, as a history: PushEvent releases the buffered children one by one under the mutex,
+   Total reads without it and returns 1 (2 before the push, 0 after it) *)
+Theorem C28_buffer_unlocked_total_not_linearizable :
+  (exists c, exec (list nat) MiniBuffer.bop nat (option nat) MiniBuffer.blinit MiniBuffer.bmstep MiniBuffer.bfin
+               nowait nowstep MiniBuffer.bkind [1; 2] MiniBuffer.mid_push_trace c) /\
+  ~ linearizable (list nat) MiniBuffer.bop nat (option nat) MiniBuffer.blinit MiniBuffer.bmstep MiniBuffer.bfin
+      nowait nowstep [1; 2] (hist MiniBuffer.bop nat MiniBuffer.mid_push_trace).
+Proof. split; [exact MiniBuffer.mid_push_trace_exec | exact MiniBuffer.unlocked_total_not_linearizable]. Qed.
+
+(* the pool finding, as a history: an operation that visits two stores in two critical sections (NotFlushedSizeEst;
+   Flush has the same shape), two writes through the handles in between: it returns 5, the legal answers are 0, 3, 8 *)
+Theorem C28_pool_two_section_op_not_linearizable :
+  (exists c, exec (nat * nat) MiniPool.pop nat MiniPool.ploc MiniPool.plinit MiniPool.pmstep MiniPool.pfin
+               MiniPool.pwaits MiniPool.pwstep MiniPool.pkind (0, 0) MiniPool.split_size_trace c) /\
+  ~ linearizable (nat * nat) MiniPool.pop nat MiniPool.ploc MiniPool.plinit MiniPool.pmstep MiniPool.pfin
+      MiniPool.pwaits MiniPool.pwstep (0, 0) (hist MiniPool.pop nat MiniPool.split_size_trace).
+Proof. split; [exact MiniPool.split_size_trace_exec | exact MiniPool.split_size_not_linearizable]. Qed.
+
 (* ---- several mutexes: lock order, deadlock freedom, the pool ---- *)
 (* generic: a machine in which a thread asks for a lock only above the ranks of the locks it holds never
    reaches a configuration with a cycle of waiting threads *)
@@ -201,16 +251,40 @@ Theorem C28_ordered_locks_no_deadlock :
     lreach lock rank c -> ~ deadlocked lock c.
 Proof. exact ordered_locks_no_deadlock. Qed.
 
-(* the (held, acquired) pairs of mutex classes that lockscan saw in the code increase along this ranking;
-   two locks of one class (two stores) are never held together (there is no pair (x, x)) *)
+(* the (held, acquired) pairs that lockscan saw in the code.  Two kinds:
+   - different classes: they increase along [lock_rank];
+   - the SAME class one wrapping level deeper, written "c@underlying": Flushable.flush holds w.lock and calls
+     w.underlying.NewBatch() ... Write(); when the parent is itself a Flushable (memorydb over devnull, vecengine's
+     wrapper over that, the stores of a SyncedPool over a wrapped parent) cacheBatch.Write takes the PARENT's lock
+     inside.  So two locks of one class CAN be held together, always wrapper first, parent second.
+   ASSUMPTION (not checked: it is a property of how the application stacks its stores): wrapping is acyclic and at
+   most D deep.  Then rank (class, depth) = class * D + depth increases along both kinds of pairs
+   (C28_instance_rank_increases), which is the premise of C28_ordered_locks_no_deadlock for lock INSTANCES.
+   Two DIFFERENT stores of a pool (neither wraps the other) are never locked together: there is no pair (c, c).
+   Locks taken by external callbacks (EventsBuffer's Process etc., cb_external in callback_table) are outside this
+   check: the deadlock statement assumes they take none of the locks ranked here. *)
 Definition lock_rank (m : string) : N :=
   if String.eqb m "syncedpool.Mutex" then 1 else if String.eqb m "syncedpool.flushing" then 2
   else if String.eqb m "syncedpool.queuedDropsMu" then 3 else if String.eqb m "flushable.lock" then 4
   else if String.eqb m "eventsbuffer.mu" then 5 else if String.eqb m "wlru.lock" then 6
   else if String.eqb m "datasemaphore.mu" then 7 else 0.
-Theorem C28_lock_order_ranked :
-  forallb (fun e => N.ltb 0 (lock_rank (fst e)) && N.ltb (lock_rank (fst e)) (lock_rank (snd e))) lock_order = true.
+Definition edge_ok (e : string * string) : bool :=
+  N.ltb 0 (lock_rank (fst e)) &&
+  (N.ltb (lock_rank (fst e)) (lock_rank (snd e)) || String.eqb (snd e) (fst e ++ "@underlying")).
+Theorem C28_lock_order_ranked : forallb edge_ok lock_order = true.
 Proof. vm_compute. reflexivity. Qed.
+
+Theorem C28_instance_rank_increases :
+  (forall D ca cb da db, ca < cb -> da < D -> inst_rank D ca da < inst_rank D cb db) /\
+  (forall D c d, inst_rank D c d < inst_rank D c (S d)).
+Proof. split; [exact inst_rank_class | exact inst_rank_depth]. Qed.
+
+(* non-vacuity with contention: a thread holding a wrapper's lock waits for the parent's lock held by another *)
+Example C28_stacked_stores_contention :
+  lreach (nat * nat) sf_rank sf_c5 /\
+  lwants _ sf_c5 0 = Some ((4, 1), MExcl) /\ In ((4, 1), MExcl) (lheld _ sf_c5 1) /\
+  In ((4, 0), MExcl) (lheld _ sf_c5 0) /\ ~ deadlocked (nat * nat) sf_c5.
+Proof. exact stacked_flushables_contention. Qed.
 
 (* SyncedPool's own operations (Flush, NotFlushedSizeEst, Names, OpenDB, GetUnderlying, Initialize) hold the pool
    mutex from beginning to end: one-mutex object over model/SyncedPool.v (LinObjects.pl_step).  A Flush that
@@ -229,7 +303,8 @@ Proof. exact (fun fk => pool_ops_linearizable fk checked_table C28_pool_table_ch
 (* ... but together with writes through the store handles (which take only the store's lock) the pool is NOT
    linearizable: exactly these pool operations visit the stores in SEVERAL separate critical sections of the
    stores' locks (not two-phase), so a handle write can fall between two of them.  Recorded finding
-   C28-pool-multi-store-not-atomic; demonstrated on the real code by the POOLMID case. *)
+   C28-pool-multi-store-not-atomic; demonstrated on the real code by the POOLMID case, and as a non-linearizable
+   history of the machine in C28_pool_two_section_op_not_linearizable. *)
 Theorem C28_pool_multi_store_ops_refuted :
   map row_key (filter (fun r => r_exported r && negb (is_self r) && negb (r_quiescent r) && N.ltb 1 (r_sections r)) lock_table)
   = [("SyncedPool", "Flush"); ("SyncedPool", "Initialize"); ("SyncedPool", "NotFlushedSizeEst")].
@@ -405,6 +480,13 @@ Print Assumptions C28_flushable_linearizable.
 Print Assumptions C28_flushable_race_free.
 Print Assumptions C28_buffer_table_check.
 Print Assumptions C28_buffer_mutators_linearizable.
+Print Assumptions C28_flushable_multistep_table_check.
+Print Assumptions C28_flushable_multistep_linearizable.
+Print Assumptions C28_flushable_multistep_sequential_spec.
+Print Assumptions C28_split_section_not_linearizable.
+Print Assumptions C28_buffer_unlocked_total_not_linearizable.
+Print Assumptions C28_pool_two_section_op_not_linearizable.
+Print Assumptions C28_instance_rank_increases.
 Print Assumptions C28_ordered_locks_no_deadlock.
 Print Assumptions C28_lock_order_ranked.
 Print Assumptions C28_pool_table_check.
